@@ -46,6 +46,32 @@ theorem holdout_maps {s k t : Screen} {sel : List Bool} (h : holdout s sel = .ok
   have mt := mk?_maps ht
   exact ⟨⟨⟨_, hk⟩, mk.1 _ rfl, mk.2 _ rfl⟩, ⟨⟨_, ht⟩, mt.1 _ rfl, mt.2 _ rfl⟩⟩
 
+/-- the rows of the two halves are the parent's rows selected by the complement / the selection vector -/
+theorem holdout_rows {s k t : Screen} {sel : List Bool} (h : holdout s sel = .ok (k, t)) :
+    (k.tnames = maskFilter s.tnames (sel.map (!·)) ∧ k.tdoses = maskFilter s.tdoses (sel.map (!·))
+      ∧ k.snames = maskFilter s.snames (sel.map (!·)) ∧ k.pnames = maskFilter s.pnames (sel.map (!·))
+      ∧ k.obs = maskFilter s.obs (sel.map (!·)) ∧ k.mask = maskFilter s.mask (sel.map (!·)))
+    ∧ (t.tnames = maskFilter s.tnames sel ∧ t.tdoses = maskFilter s.tdoses sel
+      ∧ t.snames = maskFilter s.snames sel ∧ t.pnames = maskFilter s.pnames sel
+      ∧ t.obs = maskFilter s.obs sel ∧ t.mask = List.replicate (sel.count true) true) := by
+  unfold holdout at h
+  simp only [bind, Except.bind, pure, Except.pure, throw, throwThe, MonadExceptOf.throw] at h
+  split at h
+  · cases h
+  split at h
+  · cases h
+  rename_i k' hk
+  split at h
+  · cases h
+  rename_i t' ht
+  injection h with h
+  injection h with h1 h2
+  subst h1 h2
+  have fk := mk?_inv hk
+  have ft := mk?_inv ht
+  exact ⟨⟨fk.core.tnames_eq, fk.core.tdoses_eq, fk.core.snames_eq, fk.core.pnames_eq, fk.obs_eq, fk.mask_eq⟩,
+    ⟨ft.core.tnames_eq, ft.core.tdoses_eq, ft.core.snames_eq, ft.core.pnames_eq, ft.obs_eq, ft.mask_eq⟩⟩
+
 /-- every step of the lifecycle returns a constructed screen with the parent's two mappings -/
 theorem step_maps {op : Op} {s t : Screen} (h : step op s = .ok t) :
     Valid t ∧ t.tmap = s.tmap ∧ t.smap = s.smap := by
